@@ -1,5 +1,6 @@
 import ParolModel.Proofs.Canon
 import ParolModel.Proofs.Bnf
+import ParolModel.Proofs.GenName
 /-! # C09 — EBNF canonicalisation preserves the language
 
 Property text: *For every grammar text parol accepts, the plain productions it derives from groups,
@@ -88,6 +89,12 @@ theorem canon_preserves_lang {ty : GType} {fuel : Nat} {E : List EProd} {B : Lis
 /-- **C09, `generate_name`**: the generated name is not in the exclusion list. -/
 theorem generate_name_not_mem {excl : List Name} {pref X : Name}
     (h : generateName excl pref = some X) : X ∉ excl := generateName_not_mem h
+
+/-- **C09, `generate_name` always finds a name**: the model's search budget of
+    `|exclusions| + 1` numbered candidates suffices (pigeonhole; the decimal rendering of the
+    counter is injective), so the Rust `while` loop terminates for every input. -/
+theorem generate_name_total (excl : List Name) (pref : Name) :
+    ∃ X, generateName excl pref = some X := generateName_total excl pref
 
 /-- **C09, helper names**: every left-hand side of the result is a left-hand side of the grammar
     as written, or it is none of the names used in it (no hypothesis on defined-ness is needed any
